@@ -17,7 +17,8 @@ IntKinds   == {"int", "int8", "int16", "int32", "int64", "uint", "uint8", "uint1
 FloatKinds == {"float32", "float64", "nan", "inf"}           \* nan / inf are float64 values
 SliceKinds == {"anyslice", "strslice", "intslice", "f64slice", "mapslice", "otherslice", "nilslice", "selfslice"}
 OtherKinds == {"nil", "string", "bool", "map", "othermap", "func", "chan", "ptr", "nilptr", "array", "cstruct", "sstruct",
-               "namedint", "namedstr", "namedslice", "errresult"}
+               "namedint", "namedstr", "namedslice", "errresult",
+               "resultval"}     \* a value whose dynamic type is flyt.Result itself (a Result kept in a Result or in the store)
 Classes    == IntKinds \cup FloatKinds \cup SliceKinds \cup OtherKinds
 
 Families == {"String", "Int", "Float64", "Bool", "Slice", "Map"}
